@@ -80,7 +80,7 @@ func (ht responseTypable) AddExtension(key string, value interface{}) {
 }
 
 func (ht responseTypable) WithEnum(values ...interface{}) {
-	ht.header.WithEnum(values)
+	ht.header.WithEnum(values...)
 }
 
 func (ht responseTypable) WithEnumDescription(_ string) {
